@@ -118,7 +118,7 @@ def _ok_an(v, mn, mx):
 
 
 def _ok_n(v, mn, mx):
-    return v.isdigit() and mn <= len(v) <= mx
+    return v != '' and all(c in '0123456789' for c in v) and mn <= len(v) <= mx
 
 
 def fits_definitions(a, text):
@@ -258,7 +258,7 @@ def run(ctx):
         if fam == 'mutated':
             text, names = mutate.mutate(rng, text)
             kinds += names
-        case = {'map': e['file'], 'family': kinds, 'k': ['c06', ctx.shard, k], 'terms': list(terms), 'text': text if len(text) < 8000 else None}
+        case = {'map': e['file'], 'family': kinds, 'k': ['c06', ctx.shard, k], 'terms': list(terms), 'text': text if len(text) < 150000 else None}
         res = pipeline.validate(text, charset='E')
         n += 1
         if res.exc is not None:
